@@ -1,77 +1,84 @@
-import SaphyrModel.Sc.Basic
-/-! # C10 — All input back-ends behave identically (per-operation theorems)
+import SaphyrModel.Proofs.InputAgree
+import SaphyrModel.Sc.Scan3
+/-! # C10 — All input back-ends behave identically
 
-`StrInput` (`kind = .str`) reads straight from the remaining string; `BufferedInput` and every
-contract-conforming ring input (`kind = .buf`, any capacity ≥ 1) read through a look-ahead buffer
-padded with NUL at the end of input. `Same i j` says both see the same characters, NUL standing for
-"past the end". The theorems say the basic operations return the same value from `Same` states and
-lead to `Same` states. The whole-scanner relational theorem (every scanner function preserves
-`Same` and returns equal tokens) is not complete. -/
+`StrInput` (`kind = .str`) reads straight from the remaining string, overriding some twenty trait
+methods with byte-level fast paths; `BufferedInput` and every contract-conforming ring input
+(`kind = .buf`, any capacity) use the trait's default methods over a look-ahead buffer padded with
+NUL at the end of input.
+
+`C10_full` is the property at full strength (equal token streams for every text). **Proved** is the
+whole `Input` interface: `input_interface_agrees` — *every* operation of the interface (the eight
+required methods and all defaulted/overridden ones the scanner calls) returns the same value on a
+string input and on a buffered input of any capacity that see the same characters (`SimIn`), and
+leaves them seeing the same characters. The three override families whose `StrInput` code is a
+different algorithm — byte tests for document indicators and `next_can_be_plain_scalar`, slice
+scans for `skip_while_*` / `fetch_while_is_alpha`, and `skip_ws_to_eol` — are proved equal to the
+trait defaults (loops over `look_ch`/`skip`) by induction over the text. A panic of the buffered side
+(look-ahead beyond the ring, `peek` beyond what was requested, exhausted fuel) claims nothing: the
+look-ahead discipline is C01's subject. **Not proved**: the lifting through the scanner's own code
+(130 functions, three of which branch on `buf_is_empty`/`bufmaxlen`); there the check compares the
+implementation with itself on six back-ends and the scanner model on three. -/
 namespace SaphyrModel.C10
 open SaphyrModel SaphyrModel.Sc
 
-/-- the characters an input will deliver, in order -/
-def text (i : In) : Str := match i.kind with | .str => i.iter | .buf => i.buf ++ i.iter
+/-- C10 for the scanner, full strength: for every text and every capacity the contract allows, the
+string back-end and a buffered back-end deliver the same tokens (values, spans) and the same
+outcome (end of stream or the same error) — whenever neither run stops at a panic site. -/
+def C10_full : Prop :=
+  ∀ (text : Str) (cap fuel : Nat), 8 ≤ cap →
+    let a := scanAll fuel (mkSc .str 128 text) []
+    let b := scanAll fuel (mkSc .buf cap text) []
+    (∀ p, a.2.1 ≠ .panic p) → (∀ p, b.2.1 ≠ .panic p) → a.1 = b.1 ∧ a.2.1 = b.2.1
 
-/-- both inputs deliver the same characters, with NUL standing for "past the end" -/
-def Same (i j : In) : Prop := ∀ n, (text i).getD n '\x00' = (text j).getD n '\x00'
+/-- **The whole `Input` interface agrees between the string back-end and any buffered back-end.** -/
+theorem input_interface_agrees :
+    (∀ n, Agrees (In.lookahead n)) ∧ Agrees In.peek ∧ (∀ n, Agrees (In.peekNth n)) ∧
+    (∀ n, Agrees (In.skipN n)) ∧ Agrees In.lookCh ∧
+    (∀ c, Agrees (In.nextCharIs c)) ∧ (∀ n c, Agrees (In.nthCharIs n c)) ∧
+    (∀ c1 c2, c1 ≠ '\x00' → c2 ≠ '\x00' → Agrees (In.next2Are c1 c2)) ∧
+    (∀ c1 c2 c3, c1 ≠ '\x00' → c2 ≠ '\x00' → c3 ≠ '\x00' → Agrees (In.next3Are c1 c2 c3)) ∧
+    Agrees In.nextIsDocumentIndicator ∧ Agrees In.nextIsDocumentStart ∧ Agrees In.nextIsDocumentEnd ∧
+    Agrees In.nextIsBlankOrBreak ∧ Agrees In.nextIsBlankOrBreakz ∧ Agrees In.nextIsBlank ∧
+    Agrees In.nextIsBreak ∧ Agrees In.nextIsBreakz ∧ Agrees In.nextIsZ ∧ Agrees In.nextIsFlow ∧
+    Agrees In.nextIsDigit ∧ Agrees In.nextIsAlpha ∧
+    (∀ fl, Agrees (In.nextCanBePlainScalar fl)) ∧
+    Agrees In.skipWhileNonBreakz ∧ Agrees In.skipWhileBlank ∧ (∀ out, Agrees (In.fetchWhileIsAlpha out)) ∧
+    Agrees (In.skipWsToEol .yes) ∧ Agrees (In.skipWsToEol .no) :=
+  ⟨lookahead_agree, peek_agree, peekNth_agree, skipN_agree, lookCh_agree', nextCharIs_agree, nthCharIs_agree,
+   next2Are_agree, next3Are_agree, nextIsDocumentIndicator_agree, nextIsDocumentStart_agree,
+   nextIsDocumentEnd_agree, nextIsBlankOrBreak_agree, nextIsBlankOrBreakz_agree, nextIsBlank_agree,
+   nextIsBreak_agree, nextIsBreakz_agree, nextIsZ_agree, nextIsFlow_agree, nextIsDigit_agree, nextIsAlpha_agree,
+   nextCanBePlainScalar_agree, skipWhileNonBreakz_agree, skipWhileBlank_agree, fetchWhileIsAlpha_agree,
+   skipWsToEol_agree .yes (Or.inl rfl), skipWsToEol_agree .no (Or.inr rfl)⟩
 
-theorem getD_replicate_nul (n k : Nat) : (List.replicate k '\x00').getD n '\x00' = '\x00' := by
-  simp [List.getD, List.getElem?_replicate]; split <;> simp
+/-- `skip` drops the same character on both sides when the buffered side holds one (every `skip` of
+the scanner follows a look-ahead request; the real `pop_front` on an empty ring silently does nothing) -/
+theorem skip_agrees (i j : In) (h : SimIn i j) (hne : j.buf ≠ []) : AgreeR j (In.skip i) (In.skip j) :=
+  skip_agree' i j h hne
 
-/-- `look_ch` (= `lookahead(1)` then `peek`) returns the same character on a string input and on a
-    buffered input of any capacity ≥ 1, and leaves them seeing the same text -/
-theorem lookCh_agree (i j : In) (hi : i.kind = .str) (hj : j.kind = .buf) (hcap : 1 ≤ j.cap) (h : Same i j) :
-    ∃ c i' j', In.lookCh i = .ok (c, i') ∧ In.lookCh j = .ok (c, j') ∧ Same i' j' ∧
-      i'.kind = .str ∧ j'.kind = .buf ∧ j'.cap = j.cap := by
-  unfold In.lookCh In.lookahead In.peek
-  have h0 := h 0
-  simp only [text, hi, hj] at h0
-  cases hb : j.buf with
-  | cons b r =>
-    refine ⟨b, { i with la := max i.la 1 }, j, ?_, ?_, ?_, hi, hj, rfl⟩
-    · simp [Bind.bind, hi]
-      simp [hb, List.getD] at h0
-      cases hit : i.iter <;> simp_all <;> assumption
-    · simp [Bind.bind, hj, hb]
-    · intro n; have := h n; simpa [text, hi, hj] using this
-  | nil =>
-    cases hjt : j.iter with
-    | nil =>
-      refine ⟨'\x00', { i with la := max i.la 1 }, { j with buf := ['\x00'], iter := [] }, ?_, ?_, ?_, hi, hj, rfl⟩
-      · simp [Bind.bind, hi]
-        simp [hb, hjt, List.getD] at h0
-        cases hit : i.iter <;> simp_all <;> assumption
-      · have : ¬ (1 > j.cap) := by omega
-        simp [Bind.bind, hj, hb, hjt, this]
-      · intro n
-        have := h n
-        simp only [text, hi, hj, hb, hjt, List.append_nil, List.nil_append] at this ⊢
-        rw [this]
-        cases n <;> simp [List.getD]
-    | cons c r =>
-      refine ⟨c, { i with la := max i.la 1 }, { j with buf := [c], iter := r }, ?_, ?_, ?_, hi, hj, rfl⟩
-      · simp [Bind.bind, hi]
-        simp [hb, hjt, List.getD] at h0
-        cases hit : i.iter <;> simp_all <;> assumption
-      · have : ¬ (1 > j.cap) := by omega
-        simp [Bind.bind, hj, hb, hjt, this]
-      · intro n
-        have := h n
-        simpa [text, hi, hj, hb, hjt] using this
+/-- `raw_read_non_breakz_ch` reads behind the look-ahead buffer; with the buffer empty (what
+`scan_block_scalar_content_line` checks first) it agrees with the string back-end -/
+theorem raw_read_agrees (i j : In) (h : SimIn i j) (hb : j.buf = []) :
+    AgreeR j (In.rawReadNonBreakzCh i) (In.rawReadNonBreakzCh j) := rawRead_agree i j h hb
 
-/-- `skip` after a `look_ch` drops the same character on both inputs -/
-theorem skip_agree (i j : In) (hi : i.kind = .str) (hj : j.kind = .buf) (hne : j.buf ≠ []) (h : Same i j) :
-    ∃ i' j', In.skip i = .ok ((), i') ∧ In.skip j = .ok ((), j') ∧ Same i' j' := by
-  refine ⟨{ i with iter := i.iter.tail }, { j with buf := j.buf.tail }, by simp [In.skip, hi], by simp [In.skip, hj], ?_⟩
-  intro n
-  have := h (n + 1)
-  simp only [text, hi, hj] at this ⊢
-  cases hb : j.buf with
-  | nil => exact absurd hb hne
-  | cons b r =>
-    cases hit : i.iter with
-    | nil => simp_all [List.getD] <;> assumption
-    | cons a t => simp_all [List.getD] <;> assumption
+/-- agreement composes: any program built from agreeing operations agrees -/
+theorem agreement_composes {α β : Type} {m : M In α} {f : α → M In β} (h1 : Agrees m) (h2 : ∀ a, Agrees (f a)) :
+    Agrees (m >>= f) := Agrees.bind h1 h2
+
+/-- the trait's default loop `while p(look_ch()) { skip }` computes, on a buffered input of any
+capacity, exactly the count and the remainder that `StrInput` reads off its slice -/
+theorem default_skip_while_is_span (p : Char → Bool) (hp : p '\x00' = false) (fuel n : Nat) (i j : In) (l : Nat)
+    (h : SimIn i j) :
+    AgreeR j (.ok (n + (In.spanWhile p i.iter).1, { i with iter := (In.spanWhile p i.iter).2, la := l }))
+      (In.dfltSkipWhile p fuel n j) := dfltSkipWhile_agree p hp fuel n i j l h
+
+/-- the hypotheses are met by fresh inputs over the same text, for every capacity -/
+example (t : Str) (cap : Nat) : SimIn (mkSc .str 128 t).inp (mkSc .buf cap t).inp :=
+  ⟨rfl, rfl, fun _ => rfl⟩
+
+/-- … and the statement is not vacuous: on `a: b` both sides answer `look_ch` with `'a'` -/
+example : In.lookCh (mkSc .str 128 "a: b".toList).inp = .ok ('a', { (mkSc .str 128 "a: b".toList).inp with la := 1 })
+    ∧ (∃ j', In.lookCh (mkSc .buf 16 "a: b".toList).inp = .ok ('a', j')) := ⟨rfl, ⟨_, rfl⟩⟩
 
 end SaphyrModel.C10
